@@ -936,7 +936,7 @@ func runC11(r *Rand, tier string, o *Out) {
 		o.Count("storm:" + mode)
 	}
 	// a call and a subscription made while the shutdown of the connection is inside the stream's Close
-	for _, how := range []string{"eof", "local", "late", "eof", "late"} {
+	for _, how := range []string{"eof", "local", "late", "deaf", "eof", "late", "deaf"} {
 		line := "cl.closegate " + how
 		if out := o.Do("P", line, true); out != "ok" {
 			o.Fail("connection loss: "+strings.TrimPrefix(out, "fail:"), line+" => "+out)
